@@ -1408,16 +1408,25 @@ def run_schedule(a, b, schedule):
     inc = impl()["inc"]
     objs, out = {}, {}
     data = {"A": a, "B": b}
+    dead = set()
     for step in schedule:
         op, who = step[:3], step[3]
+        if who in dead and op != "new":
+            continue  # its constructor raised: that exception is the observation (not the harness's own KeyError on the missing object)
         try:
             if op == "new":
+                dead.discard(who)
                 objs[who] = inc.DNSIncoming(data[who], *LISTENER_ARGS)
             else:
                 ans = objs[who].answers()
                 out[who] = dict(obj_view(objs[who], ans), status="ok", exc=None)
-        except Exception as e:  # noqa: BLE001
-            out[who] = {"status": "raised", "exc": exc_name(e), "valid": None, "qu": None, "hdr": None, "questions": (), "records": ()}
+        except (WorkBudgetExceeded, KeyboardInterrupt):
+            raise
+        except BaseException as e:  # noqa: BLE001
+            if op == "new":
+                dead.add(who)
+            out[who] = {"status": "raised", "exc": exc_name(e), "where": "DNSIncoming(data)" if op == "new" else "answers()",
+                        "valid": None, "qu": None, "hdr": None, "questions": (), "records": ()}
     return out
 
 
@@ -1429,7 +1438,7 @@ def check_interleaved(res, a, b, schedule, views, lines_a, lines_b):
         res.evaluations += 1
         case = {"interleave": {"A": C.hx(a), "B": C.hx(b), "schedule": list(schedule), "which": who}, "len": len(data), "stream": "interleave"}
         if v["status"] != "ok":
-            res.violate("C02:escape:%s" % v["exc"], "%s escapes while decoding datagram %s of an interleaved pair" % (v["exc"], who), case)
+            res.violate("C02:escape:%s" % v["exc"], "%s escapes %s while decoding datagram %s of an interleaved pair" % (v["exc"], v.get("where", ""), who), case)
             continue
         obj = {k: v[k] for k in ("valid", "qu", "hdr", "questions", "records")}
         strict = parse_strict(sl) if sl is not None else None
@@ -1662,6 +1671,14 @@ def gen_cases(tier, rng, budget, res):
         p, _q, _d = many_entries_packet(rng, rng.choice([0, 1, 5, 40, 300]), [rng.choice([0, 10, 66, 130, 300]) for _ in range(3)])
         yield ("many-entries", p)
         yield ("many-entries-mutated", mutate(rng, p))
+    # as many records / questions as 8966 bytes hold (11 / 5 bytes each): the largest counts the section loops can reach
+    hd = lambda nq, n: struct.pack(">HHHHHH", 0, 0x8400 if nq == 0 else 0, nq, n, 0, 0)  # noqa: E731
+    yield ("max-records", hd(0, 814) + (b"\x00" + struct.pack(">HHIH", 16, 1, 120, 0)) * 814)          # 814 empty TXT records owned by the root: strict-accepted
+    yield ("max-records", hd(0, 814) + (b"\x00" + struct.pack(">HHIH", 99, 1, 120, 0)) * 814)          # 814 records of an unsupported type
+    yield ("max-records", hd(0, 814) + (b"\x00" + struct.pack(">HHIH", 1, 1, 120, 0)) * 814)           # A records with rdlength 0: each reads into the next
+    yield ("max-records", hd(0, 65535) + (b"\x00" + struct.pack(">HHIH", 16, 1, 120, 0)) * 814)        # count field larger than the packet holds
+    yield ("max-records", hd(1790, 0) + (b"\x00" + struct.pack(">HH", 12, 1)) * 1790)                   # 1790 root questions
+    yield ("max-records", hd(5, 700) + (b"\x00" + struct.pack(">HH", 12, 0x8001)) * 5 + (b"\xc0\x0c" + struct.pack(">HHIH", 16, 1, 120, 0)) * 700)
     # names around the length limit: 253 characters (library/Strict) vs 255 wire octets (RFC 1035)
     for last in (58, 59, 60, 61, 62):
         yield ("name-limit", name_limit_packet([b"a" * 63] * 3 + [b"b" * last]))          # 251..255 characters, ASCII
